@@ -134,6 +134,35 @@ def run(plan):
         if last.get("udpid") != udpid:
             res.fail("get_token asked for a different udpid", last.get("udpid"))
 
+    async def relogin_main(w):
+        """login(), forced re-login(s) against a server that rotates the loginId, then get_token."""
+        CE = w.ns.cloud.CloudError
+        cloud.rotate_login_id = True
+        c = w.ns.cloud.NetHomePlusCloud(region, account=acct, password=pwd, get_async_client=cloud.client_factory())
+        for step in plan["steps"]:
+            if step == "login":
+                o = await capture(w, c.login())
+            elif step == "force":
+                o = await capture(w, c.login(force=True))
+            elif step == "expire":
+                cloud.sessions.clear()
+                continue
+            else:
+                o = await capture(w, c.get_token(udpid))
+            if not check_requests():
+                return
+            if o.kind != "ok":
+                if step == "token" and isinstance(o.exc, CE) and not any(e.get("udpId") == udpid for e in plan.get("tokenlist", [])):
+                    continue
+                res.fail(f"{step} failed against a conforming server: {o.exc_type}", repr(o.exc))
+                return
+            if step == "token":
+                match = [e for e in plan.get("tokenlist", []) if e.get("udpId") == udpid]
+                if match and tuple(o.value) != (match[0]["token"], match[0]["key"]):
+                    res.fail("get_token returned another entry's credentials", repr(o.value))
+                    return
+        w.fire("forced_relogin_with_rotating_login_id")
+
     async def e2e_main(w):
         D = w.ns.discover.Discover
         ndev = plan.get("ndev", 1)
@@ -158,6 +187,16 @@ def run(plan):
             devs.append((ip, dev_id, dev, token, key, reg, endian))
         o = await capture(w, D.discover(auto_connect=True, account=acct, password=pwd, region=region,
                                         get_async_client=cloud.client_factory()))
+        if o.kind == "ok" and plan.get("twice"):
+            # a second discovery run in the same process, after the server has dropped the first run's session
+            cloud.sessions.clear()
+            for h in w.net.udp_hosts.values():
+                h.answered = False
+            w.fire("second_discovery_after_session_expiry")
+            if not check_requests():
+                return
+            o = await capture(w, D.discover(auto_connect=True, account=acct, password=pwd, region=region,
+                                            get_async_client=cloud.client_factory()))
         if not check_requests():
             return
         if o.kind != "ok":
@@ -200,7 +239,7 @@ def run(plan):
             w.fire("concurrent_auto_connect", ndev)
 
     try:
-        w.run(select_main if mode != "e2e" else e2e_main)
+        w.run({"e2e": e2e_main, "relogin": relogin_main}.get(mode, select_main))
     except (SimDeadlock, SimStepLimit) as e:
         res.fail(f"liveness: {type(e).__name__}", str(e))
     res.take(w)
@@ -296,6 +335,22 @@ def space(tier):
             p["faults"] = [rng.choice(["timeout", None]), rng.choice(["timeout", None]), None, None, rng.choice(["timeout", None])]
         p["ndev"] = rng.choice([1, 1, 2, 3])
         p["stagger"] = rng.choice([0, 1, 30])
+        p["twice"] = rng.random() < 0.3
+        if p["twice"]:
+            p.pop("faults", None)
         return p
     sp.add("e2e", 1500 if tier == "quick" else 30_000, e2e)
+
+    def relogin(j, rng):
+        p = gen_select(j, rng)
+        p["mode"] = "relogin"
+        steps = ["login"]
+        for _ in range(rng.randint(1, 4)):
+            steps.append(rng.choice(["force", "force", "token", "login", "expire"]))
+            if steps[-1] == "expire":
+                steps.append("force")
+        steps.append("token")
+        p["steps"] = steps
+        return p
+    sp.add("relogin", 1000 if tier == "quick" else 60_000, relogin)
     return sp
